@@ -38,6 +38,9 @@ pub struct C14Case {
     pub bursts: Vec<Vec<(bool, bool)>>,
     pub busy_ms: u8,
     pub pulse_ms: Option<u8>,
+    /// the recorder also emits an explicit `.append` on a topic outside its own name
+    #[serde(default)]
+    pub explicit_append: bool,
 }
 
 const TOPICS: &[&str] = &["trig", "note", "h.out", "h.registered", "x.register", "g.out"];
@@ -55,8 +58,9 @@ pub fn strategy() -> BoxedStrategy<C14Case> {
         ),
         prop_oneof![2 => Just(0u8), 2 => 1u8..6],
         proptest::option::weighted(0.15, 15u8..40),
+        any::<bool>(),
     )
-        .prop_map(|(ctx, resume, pre, earlier_lifecycle, other_handler, bursts, busy_ms, pulse_ms)| C14Case {
+        .prop_map(|(ctx, resume, pre, earlier_lifecycle, other_handler, bursts, busy_ms, pulse_ms, explicit_append)| C14Case {
             ctx,
             resume,
             pre,
@@ -65,11 +69,12 @@ pub fn strategy() -> BoxedStrategy<C14Case> {
             bursts,
             busy_ms,
             pulse_ms,
+            explicit_append,
         })
         .boxed()
 }
 
-fn recorder_script(resume: &str, busy_ms: u8, pulse: Option<u8>) -> String {
+fn recorder_script(resume: &str, busy_ms: u8, pulse: Option<u8>, explicit: bool) -> String {
     format!(
         r#"$env.n = 0
 def --env bump [] {{
@@ -81,12 +86,14 @@ def --env bump [] {{
   {pulse}
   run: {{|frame|
     {busy}
+    {explicit}
     {{seen: $frame.id, topic: $frame.topic, n: (bump)}}
   }}
 }}
 "#,
         resume = nu_str(resume),
         pulse = pulse.map(|p| format!("pulse: {p}")).unwrap_or_default(),
+        explicit = if explicit { "\"copy\" | .append \"copies\"" } else { "" },
         busy = if busy_ms > 0 {
             format!("if $frame.topic == \"trig\" {{ sleep {busy_ms}ms }}")
         } else {
@@ -131,7 +138,7 @@ fn run_in(case: &C14Case, nu: &mut Nu) -> Result<CaseInfo, Fail> {
 
     // ---- history -------------------------------------------------------------------
     if case.earlier_lifecycle {
-        let v1 = nu.append("h.register", hctx, Some(recorder_script("tail", 0, None).as_bytes()), None)?;
+        let v1 = nu.append("h.register", hctx, Some(recorder_script("tail", 0, None, false).as_bytes()), None)?;
         wait_for(nu, "the earlier registration of h", |fr| {
             fr.iter().any(|w| w.topic == "h.registered" && meta_of(w, "handler_id").as_deref() == Some(&v1.id))
         })?;
@@ -172,7 +179,7 @@ fn run_in(case: &C14Case, nu: &mut Nu) -> Result<CaseInfo, Fail> {
         }
     };
     let tail = resume_str == "tail";
-    let script = recorder_script(&resume_str, case.busy_ms, case.pulse_ms);
+    let script = recorder_script(&resume_str, case.busy_ms, case.pulse_ms, case.explicit_append);
     let reg = nu.append("h.register", hctx, Some(script.as_bytes()), None)?;
     let after_reg = wait_for(nu, "h.registered", |fr| {
         fr.iter().any(|w| (w.topic == "h.registered" || w.topic == "h.unregistered") && meta_of(w, "handler_id").as_deref() == Some(&reg.id))
